@@ -48,6 +48,7 @@ def run(tier):
     oc = Outcome(PROP)
     oc.rule = ("synthesised VP projects: 1-3 state diagrams (1-6 states, 0-9 transitions, guards / effects present or absent, effects shared between transitions, self loops, transitions drawn twice, "
                "notes / anchors, trigger names containing 'guard' / 'effect', nested owner:child references) plus class diagrams as noise, element ids random, table rows shuffled; "
+               "every third project is followed by a revision of itself (same element ids; states / events / activities renamed, transitions re-wired) extracted in the same process; "
                "oracle: extraction == one row per drawn transition with names and 'None' conventions, grouped by source, initial target's group first; model: Vpp.extract on the dumped tables; "
                "calibration: the shipped project's TestStateMachine and its abstract re-synthesis; non-trivial = diagram with >= 2 transitions")
     oc.assumptions = TRUSTED
@@ -72,11 +73,25 @@ def run(tier):
                activities=["OnRed", "OnOrange", "OnGreen"], notes=0)
     n = 1500 if thorough else 150
     with scratch() as base:
+        todo = []
         for i in range(n + 1):
             ds = [cal] if i == 0 else [vppsynth.rand_diagram(r, "SM%d" % k) for k in range(r.choice([1, 2, 3]))]
-            path = os.path.join(base, "p%d.vpp" % i)
-            vppsynth.write_project(r, path, ds, class_diagrams=r.choice([0, 1, 2]))
+            ncd = r.choice([0, 1, 2])
+            if i > 0 and i % 3 == 0:
+                # a project and a later revision of it (same element ids, other names and wiring), extracted one after
+                # the other in this process - to the same path or to another one
+                seed = r.randrange(1 << 30)
+                same_path = r.random() < 0.5
+                todo.append((ds, ncd, seed, "p%d.vpp" % i, "first"))
+                todo.append((vppsynth.revise(r, ds), ncd, seed, "p%d.vpp" % i if same_path else "p%dr.vpp" % i, "revision"))
+            else:
+                todo.append((ds, ncd, None, "p%d.vpp" % i, None))
+        for (ds, ncd, seed, fname, role) in todo:
+            path = os.path.join(base, fname)
+            vppsynth.write_project(r, path, ds, class_diagrams=ncd, id_seed=seed)
             tabs = vppsynth.dump_tables(path)
+            if role:
+                oc.stat("extraction_of_" + role + "_of_a_revised_project")
             for d in ds:
                 name = d["name"] if r.random() < 0.8 else "  " + d["name"] + " "
                 try:
